@@ -104,7 +104,7 @@ for _n, _s in {
     "optint14": opt(st.integers(1, 4)),
     "optint03": st.one_of(st.integers(0, 3), st.integers(0, 3), st.none()),
     "optint05": opt(st.integers(0, 5)),
-    "bool": st.booleans(),
+    "bool": st.sampled_from([True, True, True, False]),
     "sliceint": opt(st.integers(-3, 5)),
     "step": opt(st.integers(1, 3)),
     "strkey": st.sampled_from(["k", "j"]),
@@ -169,7 +169,7 @@ def _(ctx, slot, spec):
     return ctx.src(spec)
 
 
-@kind("optsrc", opt(s_src))
+@kind("optsrc", st.one_of(st.none(), s_src, s_src))
 def _(ctx, slot, spec):
     return None if spec is None else ctx.src(spec)
 
@@ -281,7 +281,7 @@ def _(ctx, slot, k):
     return None if k is None else _subject(ctx, k)
 
 
-@kind("submapper", st.sampled_from([None, None, "subject", "replay"]))
+@kind("submapper", st.sampled_from([None, "subject", "replay", "replay"]))
 def _(ctx, slot, k):
     return None if k is None else ctx.fn(slot, lambda: _subject(ctx, k))
 
@@ -760,11 +760,68 @@ def _fparams(name):
     return _FPARAMS[name]
 
 
+def _forms(case, fparams):
+    """Call forms to execute for one case: the case's own form plus (bounded) every combination of
+    omitted/given defaulted parameters x positional-prefix length; de-duplicated by effective plan."""
+    import itertools
+
+    optional = [p.name for p in fparams if p.default is not p.empty and p.kind is not p.VAR_POSITIONAL]
+    n_pk = sum(1 for p in fparams if p.kind in (p.POSITIONAL_ONLY, p.POSITIONAL_OR_KEYWORD))
+    if len(optional) <= 3:
+        subsets = [set(c) for r in range(len(optional) + 1) for c in itertools.combinations(optional, r)]
+    else:
+        subsets = [set(optional), set()] + [{o} for o in optional] + [set(optional) - {o} for o in optional]
+    own_given = dict(case["given"])
+    cands = [(own_given, case["npos"])]
+    for sub in subsets:
+        g = {k: (k in sub if k in optional else True) for k in own_given}
+        for npos in sorted({0, n_pk, case["npos"], 1 if n_pk > 1 else 0}):
+            cands.append((g, npos))
+    out, seen = [], set()
+    for g, npos in cands:
+        c2 = dict(case)
+        c2["given"] = g
+        c2["npos"] = npos
+        vals, given = _normalise(c2)
+        plan = _plan(c2, fparams, vals, given)
+        key = repr(plan)
+        if key in seen:
+            continue
+        seen.add(key)
+        out.append(c2)
+        if len(out) >= 16:
+            break
+    return out
+
+
 def _run(case):
     m = case["m"]
     if m not in TABLE:
         raise HarnessError(f"no table row for {m}")
     fparams = _fparams(m)
+    forms = [case] if case.get("forms") == "own" else _forms(case, fparams)
+    nontrivial = False
+    classes = []
+    skipped = 0
+    for c2 in forms:
+        r = _run_form(c2, fparams)
+        if r.inconclusive:
+            skipped += 1
+            continue
+        if not r.ok:
+            return r
+        nontrivial = nontrivial or r.nontrivial
+        for c in r.classes:
+            if c not in classes:
+                classes.append(c)
+    if skipped == len(forms):
+        return SKIP("spin-or-budget")
+    classes.append(f"forms>={min(len(forms), 8)}" if len(forms) >= 8 else f"forms={len(forms)}")
+    return OK(nontrivial, classes)
+
+
+def _run_form(case, fparams):
+    m = case["m"]
     a = _world(case, "fluent", fparams)
     b = _world(case, "piped", fparams)
     if a is None or b is None:
@@ -809,8 +866,8 @@ def _case_strategy(name, params):
     src = st.fixed_dictionaries({"kind": st.sampled_from(["cold", "cold", "sync", "hot"]), "tl": timelines(max_len=4, max_dt=3, values=(HASHABLE_NAMES if row.shape == "hash" else NAMES))})
     inner_pol = st.one_of(
         st.just({"mode": "now"}),
-        st.just({"mode": "now"}),
         st.fixed_dictionaries({"mode": st.just("late"), "d": st.integers(0, 3)}),
+        st.fixed_dictionaries({"mode": st.just("late"), "d": st.integers(1, 4)}),
         st.just({"mode": "never"}),
         st.fixed_dictionaries({"mode": st.just("now"), "unsub": st.integers(0, 4)}),
     )
